@@ -127,7 +127,14 @@ func nativeRun(p *exec.Program, cases []nativeCase) ([]nativeResult, string, err
 	inPath := filepath.Join(dir, "batch.json")
 	outPath := filepath.Join(dir, "out.json")
 	os.WriteFile(inPath, cb, 0o644)
-	cmd := osexec.Command("go", "test", "-vet=off", "-count=1", "-run", "^TestVPReplay$", "-overlay", ovPath, "-timeout", "20m", ".")
+	for _, f := range []string{"go.mod", "go.sum"} {
+		b, err := os.ReadFile(filepath.Join(p.RepoDir, f))
+		if err != nil {
+			return nil, "", err
+		}
+		os.WriteFile(filepath.Join(dir, f), b, 0o644)
+	}
+	cmd := osexec.Command("go", "test", "-modfile="+filepath.Join(dir, "go.mod"), "-vet=off", "-count=1", "-run", "^TestVPReplay$", "-overlay", ovPath, "-timeout", "20m", ".")
 	cmd.Dir = p.PkgDir
 	cmd.Env = append(nativeEnv(), "VP_BATCH="+inPath, "VP_OUT="+outPath)
 	out, err := cmd.CombinedOutput()
